@@ -62,6 +62,21 @@ CLAIMED = {
     'C13': dict(text='Proved for every program of enter/exit/raise events: C13_unwind_invariant, C13_restore, C13_raise_restores, C13_scope*, '
                      'C13_cfg_reads_mode, C13_ordereddict_unaffected. All well-nested programs to a nesting bound run through the real context manager.' + PARTIAL,
                 technique='Lean 4 proof (invariant over event sequences) + correspondence on programs', ref='6 C13'),
+    'C18': dict(text='Proved: C18_sort_twin / C18_sort_spec (the C++ TotalOrderSort with its restore-on-failure and the Python total_order_sorted '
+                     'compute the same list for every key list), C18_namedtuple_twin, C18_structseq_twin (C++ and Python classification predicates '
+                     'agree on every realisable class description), C18_one_level_twin, C18_cache_inv / C18_cache_transparent (the bounded, '
+                     'weakref-evicted memo never changes an answer, every op history); generated obligations C18_sort_restores / '
+                     'C18_twin_fields_exact re-read src/ and optree/typing.py on every run. Classes and key lists run through both real twins.' + PARTIAL,
+                technique='Lean 4 proof (twin equivalence + cache invariant) with obligations regenerated from the source + correspondence', ref='6 C18'),
+    'C19': dict(text='Proved about the model of optree/dataclasses.py and optree/functools.py: C19_partition (children / metadata partition in '
+                     'declaration order), C19_rejects, C19_entries, C19_roundtrip_kwargs (the constructor receives every init field once with its '
+                     'value), C19_partial_roundtrip, C19_call_after_map. dataclasses.dataclass itself is not modelled: the implementation oracle '
+                     'compares with the stdlib decorator, re-runs __post_init__, checks namespace isolation and nested partials.' + PARTIAL,
+                technique='Lean 4 proof about the dataclasses.py / functools.py model + correspondence + differential oracle against the stdlib', ref='6 C19'),
+    'C20': dict(text='Proved for every array library obeying the recorded concat/reshape/cast contract: C20_ravel_concat, C20_empty, '
+                     'C20_unravel_ravel_single, C20_unravel_ravel_mixed, C20_ravel_unravel_single, C20_rejects (splitSizes lemmas, no size bound). '
+                     'The libraries themselves (numpy / torch / jax) are a parameter: correspondence runs numpy, the oracle runs all three.' + PARTIAL,
+                technique='Lean 4 proof (list split/join lemmas, library as a parameter) + correspondence + oracle on numpy/torch/jax', ref='6 C20'),
 }
 
 REASON_PENDING = 'check not built yet in this revision (work in progress; see DESIGN.md section 6 for the plan)'
